@@ -331,6 +331,7 @@ def h_real_sci(ctx, which, bprog="seq-dt"):
     bad_at = ctx.fresh_choice("bad_frame", 7)          # index of the written frame that is not confirmed (6 = none)
     bad_kind = ctx.fresh_choice("bad_kind", 2) if which == "sci" else 1     # 0: error status, 1: silence
     start_b = ctx.fresh_choice("start_B", 3)
+    stray = ctx.fresh_bool("stray_partial_report")     # the line delivered the beginning of a report and went quiet
     out = {}
     owner = {}
     for k, prog in progs.items():
@@ -364,6 +365,8 @@ def h_real_sci(ctx, which, bprog="seq-dt"):
             else:
                 loop.call_later(0.01, p.data_received, rigs.sci_frame(0x10, 0, 0, 0))
         t.on_write = gateway
+        if stray:
+            p.data_received([0x59] if which == "luba" else [0x10, 0x00])
         tasks = {}
         for k, prog in progs.items():
             async def runner(k=k, prog=prog):
@@ -505,6 +508,61 @@ def h_real_hid(ctx, bprog):
     return " ".join("%s=%s" % kv for kv in sorted(fin.items())) + " | " + "".join(str(c) for c, _, _ in log.emissions)
 
 
+def h_unsupported_width(ctx, which):
+    """One caller hands the real driver a frame it cannot carry and asked for no exceptions (= transparent
+    retries on communication errors); another caller sends an ordinary command.  Both complete - the first
+    with the refusal, which is not a communication error and cannot be cured by retrying - and the lock is free."""
+    import dali.device.general as dgen
+    from dali.exceptions import UnsupportedFrameTypeError
+    out = {}
+    with rigs.HidRig(ctx, 9) as rig:
+        async def main(loop):
+            if which == "hasseb":
+                d = H.hasseb("/dev/hasseb")
+                d.connect()
+                await vloop.settle(2)
+                bad = dgen.QueryDeviceStatus(A.DeviceShort(3))           # 24 bit: hasseb carries 16 only
+                rig.os.on_write = lambda data: loop.call_soon(rig.deliver, loop, d, bytes([1, 0] + [0] * 8))
+            else:
+                d = await rigs.tridonic_connect(loop, rig)
+                bad = rigs.make_command(F.ForwardFrame(25, 5))            # neither 16 nor 24 bit
+
+                def gateway(data):
+                    if data[0] != 0x12:
+                        return
+                    loop.call_soon(rig.deliver, loop, d, rigs.tridonic_report(0x12, 0x73, list(data[4:8]), data[1]))
+                    loop.call_soon(rig.deliver, loop, d, rigs.tridonic_report(0x12, 0x71, [0, 0, 0, 0], data[1]))
+                rig.os.on_write = gateway
+            ta = asyncio.ensure_future(d.send(bad, exceptions=False))
+            tb = asyncio.ensure_future(d.send(gg.DAPC(A.GearShort(3), 9)))
+            await asyncio.sleep(3.0)
+            res = {}
+            for k, t in (("A", ta), ("B", tb)):
+                if not t.done():
+                    res[k] = "pending"
+                    t.cancel()
+                elif t.exception() is not None:
+                    res[k] = t.exception()
+                else:
+                    res[k] = "ok"
+            out["res"] = res
+            out["locked"] = d.transaction_lock.locked()
+            d.disconnect()
+            await vloop.settle(2)
+        st, r = call(vloop.run, main)
+    tag = "%s/unsupported-width" % which
+    if st == "exc":
+        ctx.fail("the drivers never returned to the event loop / run raised %r" % (r,),
+                 key=tag + "/run-raised:" + type(r).__name__)
+        return "raised"
+    res = out["res"]
+    ctx.prove(isinstance(res["A"], UnsupportedFrameTypeError), "the caller with the unsupported frame ended as %r"
+              % (res["A"],), key=tag + "/refusal")
+    ctx.prove(res["B"] == "ok", "the other caller ended as %r" % (res["B"],), key=tag + "/other-caller")
+    ctx.prove(not out["locked"], "transaction lock still held", key=tag + "/lock-held")
+    return "A=%s B=%s" % (type(res["A"]).__name__ if not isinstance(res["A"], str) else res["A"], res["B"])
+
+
 def _stage2(ctx, log, progs, tag):
     """Interleaving as integers: with per-caller traces acquire < emissions < release and
     mutual exclusion of the [acquire, release] intervals, can another caller's emission fall
@@ -571,6 +629,9 @@ def cases(tier):
         # both callers use the same device type: nothing remembered about one caller's prefix may stand in
         # for the other's
         cs.append(Case("%s-real-layer-same-dt" % which, h_real_sci, {"which": which, "bprog": "send6b"}))
+    for which in ("hasseb", "tridonic"):
+        cs.append(Case("%s-unsupported-width-noexc" % which, h_unsupported_width, {"which": which},
+                       install=rigs.install_tridonic_structs))
     for bprog in ("send-plain", "send6", "seq-twice"):
         cs.append(Case("hid-real-layer-%s" % bprog, h_real_hid, {"bprog": bprog},
                        install=rigs.install_tridonic_structs))
